@@ -119,7 +119,7 @@ int main(int argc, char** argv)
     for (n = 0; n <= 40; n++) { int rep; for (rep = 0; rep < (thorough ? 8 : 3); rep++) { gen_data(data, n, (int)rndn(D_KINDS)); one_case(data, n, thorough); } }
     {   static const size_t around[] = {65535, 65536, 65537, 131072, 131073, 262143, 262144, 262145};
         for (i = 0; i < 8; i++) { gen_data(data, around[i], (int)rndn(D_KINDS)); one_case(data, around[i], thorough); } }
-    for (i = 0; i < (thorough ? 1500 : 60); i++) { n = rndp(50) ? rndn(3000) : rndn((u32)maxn); gen_data(data, n, (int)rndn(D_KINDS)); one_case(data, n, thorough); }
+    for (i = 0; i < (thorough ? SH(1500) : 60); i++) { n = rndp(50) ? rndn(3000) : rndn((u32)maxn); gen_data(data, n, (int)rndn(D_KINDS)); one_case(data, n, thorough); }
     harness_done();
     stat_u("calls", n_calls); stat_u("files", n_files); stat_u("reads", n_reads); stat_u("files_shorter_than_max_header", n_short); stat_u("read_sessions_for_the_model", n_sessions); stat_u("read_session_calls", n_session_reads); stat_u("read_sessions_ending_in_error", n_session_errors); stat_u("records", g_nrecords); stat_u("cfails", (u64)g_cfails);
     free(data);
